@@ -48,7 +48,20 @@ impl Check for C02 {
     }
     fn gen(s: &mut Src, _t: Tier) -> Case {
         let o = GenOpts { density: 3, max_ops: 5, compact_chance: (1, 60), ..GenOpts::default() };
-        let program = prog::valid_program(s, &o);
+        let mut program = prog::valid_program(s, &o);
+        if s.chance(1, 40) {
+            // an extension record under its namespace name in another spelling: the writer refuses it (then the program is
+            // outside this property) - or every element name it writes must still be bound to a declared namespace
+            for op in &mut program.ops {
+                if let Op::Cloud(c) = op {
+                    if let Some(r) = c.proto.iter_mut().find(|r| r.prefix.as_ref().map(|p| p.chars().any(|ch| ch.is_ascii_alphabetic())).unwrap_or(false)) {
+                        let p = r.prefix.clone().unwrap_or_default();
+                        r.prefix = Some(if p.chars().any(|ch| ch.is_ascii_lowercase()) { p.to_ascii_uppercase() } else { p.to_ascii_lowercase() });
+                        break;
+                    }
+                }
+            }
+        }
         let chunks = if s.chance(1, 6) { (0..1 + s.below(4)).map(|_| *s.pick(&[1u16, 7, 200, 512, 1000, 1023, 1024, 3000])).collect() } else { vec![] };
         Case { program, chunks }
     }
